@@ -4,6 +4,8 @@ import (
 	"fmt"
 	"strings"
 
+	"github.com/casbin/casbin/v2"
+
 	defaultrolemanager "github.com/casbin/casbin/v2/rbac/default-role-manager"
 )
 
@@ -15,7 +17,7 @@ func runC19(c *Ctx) {
 		depth = 4
 	}
 	c.Exhaustive = true
-	c.Rule = fmt.Sprintf("all operation logs of <= %d *Self calls (Add/Remove/RemoveFiltered/Update/UpdatePolicies/Clear on p and g, with repeated and overlapping batches) applied to three real DistributedEnforcer replicas with different persist predicates (always / never / nil), each with its own recording adapter: affected values, adapter logs, listed rules, links and decisions vs the Lean model; on the implementation: every log is applied twice to each replica (the second pass must change nothing and report nothing affected), replicas agree on affected values, rules, links and decisions, only the always-replica touches its adapter, every log is run 3 times per replica for determinism, the third time with a dispatcher attached (which must receive nothing); updates of a rule to itself must leave the replica's memory (index included) unchanged; the second run is on a replica whose role manager was installed by SetRoleManager; a replica loaded under subject priority (rules re-ordered by the load) must find every rule by value; plus seeded random logs to length 30; non-trivial = a log with an affected and an unaffected call; distinct = log", depth)
+	c.Rule = fmt.Sprintf("all operation logs of <= %d *Self calls (Add/Remove/RemoveFiltered/Update/UpdatePolicies/Clear on p and g, with repeated and overlapping batches) applied to three real DistributedEnforcer replicas with different persist predicates (always / never / nil), each with its own recording adapter: affected values, adapter logs, listed rules, links and decisions vs the Lean model; on the implementation: every log is applied twice to each replica (the second pass must change nothing and report nothing affected), replicas agree on affected values, rules, links and decisions, only the always-replica touches its adapter, every log is run 3 times per replica for determinism, the third time with a dispatcher attached (which must receive nothing); updates of a rule to itself must leave the replica's memory (index included) unchanged; the second run is on a replica whose role manager was installed by SetRoleManager; a replica loaded under subject priority (rules re-ordered by the load) must find every rule by value; grouping rules with a column beyond the definition in the alphabet; on a domain model with a domain matching function a replica that joins from the persisting replica's storage must decide like the replicas that applied the log; plus seeded random logs to length 30; non-trivial = a log with an affected and an unaffected call; distinct = log", depth)
 	P := [][]string{{"alice", "data1", "read"}, {"admin", "data2", "write"}, {"bob", "data1", "read"}}
 	G := [][]string{{"alice", "admin"}, {"bob", "admin"}}
 	mkAlpha := func(per string) []EOp {
@@ -35,6 +37,11 @@ func runC19(c *Ctx) {
 			{Kind: "dist-rmf", Persist: per, Sec: "g", PType: "g", FI: 1, Vals: []string{"admin"}},
 			{Kind: "dist-upd", Persist: per, Sec: "g", PType: "g", Rule: G[1], New: []string{"bob", "alice"}},
 			{Kind: "dist-clear", Persist: per},
+			// grouping rules with a column beyond the role definition (legal: the link uses the first two): what is
+			// reported as affected, and what the next replica is handed, is the rule as given
+			{Kind: "dist-add", Persist: per, Sec: "g", PType: "g", Rules: [][]string{{"bob", "admin", "until-2027"}}},
+			{Kind: "dist-rm", Persist: per, Sec: "g", PType: "g", Rules: [][]string{{"bob", "admin", "until-2027"}}},
+			{Kind: "dist-upds", Persist: per, Sec: "g", PType: "g", Rules: [][]string{{"bob", "admin", "until-2027"}}, News: [][]string{{"bob", "alice", "until-2028"}}},
 			// updates of a rule to itself: nothing may change, not even the index the next calls rely on
 			{Kind: "dist-upd", Persist: per, Sec: "p", PType: "p", Rule: P[1], New: P[1]},
 			{Kind: "dist-upd", Persist: per, Sec: "g", PType: "g", Rule: G[0], New: G[0]},
@@ -163,6 +170,7 @@ func runC19(c *Ctx) {
 		c.Count("random_logs", 1)
 	}
 	c19SubjectPriorityReplica(c)
+	c19JoinedReplica(c)
 }
 
 func pickOps(alpha []EOp, idx []int) []EOp {
@@ -240,6 +248,79 @@ func c19SubjectPriorityReplica(c *Ctx) {
 			}
 			c.Evals++
 			c.Count("subject_priority_replica_cases", 1)
+		}
+	}
+}
+
+// c19JoinedReplica: a domain model with a domain matching function; two replicas apply the same log (one
+// persists), a third joins afterwards from the persisting replica's storage: all three hold the same rules and
+// must make the same decisions.  The log only removes links of subjects that have no other link, so the
+// over-deletion of finding D15 is not in play.  Implementation only.
+func c19JoinedReplica(c *Ctx) {
+	ms := rbacSpec(true, false)
+	type step struct {
+		kind  string
+		sec   string
+		rules [][]string
+	}
+	logs := [][]step{
+		{{"add", "p", [][]string{{"admin", "tenant1", "data1", "read"}, {"admin", "tenant2", "data1", "read"}}}, {"add", "g", [][]string{{"bob", "admin", "tenant1"}}},
+			{"add", "g", [][]string{{"alice", "admin", "*"}}}, {"rm", "g", [][]string{{"alice", "admin", "*"}}}},
+		{{"add", "p", [][]string{{"admin", "tenant1", "data1", "read"}}}, {"add", "g", [][]string{{"bob", "admin", "tenant1"}, {"carol", "admin", "tenant2"}}},
+			{"add", "g", [][]string{{"alice", "admin", "*"}, {"dave", "admin", "*"}}}, {"rm", "g", [][]string{{"dave", "admin", "*"}}}, {"rm", "g", [][]string{{"alice", "admin", "*"}}}},
+		{{"add", "g", [][]string{{"alice", "admin", "*"}}}, {"add", "p", [][]string{{"admin", "tenant1", "data1", "read"}}}, {"add", "g", [][]string{{"bob", "admin", "tenant1"}}},
+			{"rm", "g", [][]string{{"alice", "admin", "*"}}}, {"add", "g", [][]string{{"erin", "admin", "*"}}}},
+	}
+	dec := func(e *casbin.Enforcer) string {
+		var sb strings.Builder
+		for _, u := range []string{"alice", "bob", "carol", "dave", "erin"} {
+			for _, d := range []string{"tenant1", "tenant2", "tenant3"} {
+				ok, err := e.Enforce(u, d, "data1", "read")
+				switch {
+				case err != nil:
+					sb.WriteByte('E')
+				case ok:
+					sb.WriteByte('1')
+				default:
+					sb.WriteByte('0')
+				}
+			}
+		}
+		return sb.String()
+	}
+	for li, log := range logs {
+		var reps [2]*Sess
+		for ri := range reps {
+			d := newDist(ms)
+			d.E.AddNamedDomainMatchingFunc("g", "keyMatch", matchFns["keyMatch"])
+			reps[ri] = d
+		}
+		for _, st := range log {
+			for ri, d := range reps {
+				persist := func() bool { return ri == 0 }
+				var err error
+				if st.kind == "add" {
+					_, err = d.D.AddPoliciesSelf(persist, st.sec, st.sec, cloneRules(st.rules))
+				} else {
+					_, err = d.D.RemovePoliciesSelf(persist, st.sec, st.sec, cloneRules(st.rules))
+				}
+				if err != nil {
+					c.Direct("a Self operation of the joined-replica log failed", fmt.Sprintf("log #%d step %v: %v", li, st, err))
+				}
+			}
+		}
+		joined, err := casbin.NewEnforcer(ms.Build(), reps[0].A)
+		if err != nil {
+			panic(err)
+		}
+		joined.AddNamedDomainMatchingFunc("g", "keyMatch", matchFns["keyMatch"])
+		_ = joined.BuildRoleLinks()
+		a, b, j := dec(reps[0].E), dec(reps[1].E), dec(joined)
+		c.Evals++
+		c.Count("joined_replica_logs", 1)
+		if a != b || a != j {
+			gp, _ := reps[0].E.GetGroupingPolicy()
+			c.Direct("a replica that joins from the persisting replica's storage decides differently from the replicas that applied the log", fmt.Sprintf("domain matching function keyMatch; log #%d %v\nlisted g=%v\npersisting replica %s\nmemory replica     %s\njoined replica     %s", li, log, gp, a, b, j))
 		}
 	}
 }
